@@ -225,7 +225,8 @@ theorem swap_back (nd : NDArr α) (k : Nat) (sigma : List Nat) (hperm : sigma.Pe
     (labs : List String) (hl : labs.length = k) (hnd : labs.Nodup) :
     let allLabels := sigma.map (fun i => labs.getD i default)
     let swap := labs.map (fun lab => allLabels.findIdx (· == lab))
-    ∃ nd2, transposeND nd swap = .ok nd2 ∧ nd2.shape = fshape ∧ pick allLabels swap = labs ∧
+    ∃ nd2, transposeND nd swap = .ok nd2 ∧ nd2.shape = fshape ∧ nd2.flat.length = fshape.prod ∧
+      pick allLabels swap = labs ∧
       ∀ idx, InBounds fshape idx → nd2.get idx = nd.get (sigma.map (fun i => idx.getD i 0)) := by
   intro allLabels swap
   obtain ⟨hsnd, hslen, hslt, hsmem⟩ := perm_facts k sigma hperm
@@ -245,7 +246,7 @@ theorem swap_back (nd : NDArr α) (k : Nat) (sigma : List Nat) (hperm : sigma.Pe
       simp only [List.getElem_map, inversePerm, List.getElem_range]
       rw [getD_idxOf_map (fun i => fshape.getD i 1) sigma j (hsmem j hjk) 1]
       simp [List.getD_eq_getElem?_getD, List.getElem?_eq_getElem h2]
-  refine ⟨nd.transpose swap sigma, ?_, ?_, ?_, ?_⟩
+  refine ⟨nd.transpose swap sigma, ?_, ?_, ?_, ?_, ?_⟩
   · unfold transposeND
     have c1 : (swap.length != nd.shape.length) = false := by
       rw [hswap, hqlen, hshlen]; simp
@@ -257,6 +258,8 @@ theorem swap_back (nd : NDArr α) (k : Nat) (sigma : List Nat) (hperm : sigma.Pe
     simp only [c1, c2, Bool.not_true, Bool.or_self, Bool.false_eq_true, if_false, hinv]
   · show swap.map (fun ax => nd.shape.getD ax 1) = fshape
     exact hshape2
+  · show ((List.range (swap.map (fun ax => nd.shape.getD ax 1)).prod).map _).length = _
+    rw [List.length_map, List.length_range, hshape2]
   · show swap.map (fun i => allLabels.getD i default) = labs
     rw [hswap]
     apply List.ext_getElem
@@ -353,5 +356,86 @@ theorem coords_inBounds (sizes rate : List Nat) (h : ValidGrid sizes rate) (r : 
     have : sizeFn sizes j = sizes[j] := by simp [sizeFn, List.getD_eq_getElem?_getD, List.getElem?_eq_getElem h1]
     rw [this]; exact Nat.mod_lt _ hpos
 
+
+end Usid.Reshape
+
+namespace Usid.Reshape
+open Usid Usid.Grid Usid.C09
+
+theorem sizes_eq_map (sizes : List Nat) : sizes = (List.range sizes.length).map (sizeFn sizes) := by
+  apply List.ext_getElem
+  · simp
+  · intro i h1 h2
+    simp [sizeFn, List.getD_eq_getElem?_getD, List.getElem?_eq_getElem h1]
+
+/-- the number of points of a regular grid is the product of its sizes -/
+theorem prod_sizes (sizes rate : List Nat) (h : ValidGrid sizes rate) : sizes.prod = npoints (sizeFn sizes) rate := by
+  conv => lhs; rw [sizes_eq_map sizes]
+  exact ((h.1.symm).map _).prod_nat
+
+end Usid.Reshape
+
+namespace Usid.Reshape
+open Usid Usid.Grid Usid.C09
+
+variable {α : Type} [Inhabited α]
+
+/-- two arrays of the same shape with the same elements are the same array -/
+theorem ndarr_ext (a b : NDArr α) (hs : a.shape = b.shape) (hla : a.flat.length = a.shape.prod)
+    (hlb : b.flat.length = b.shape.prod) (h : ∀ idx, InBounds a.shape idx → a.get idx = b.get idx) : a = b := by
+  cases a with | mk sa fa => cases b with | mk sb fb =>
+  simp only at hs hla hlb h
+  subst hs
+  congr 1
+  apply List.ext_getElem (by rw [hla, hlb])
+  intro k h1 h2
+  have hk : k < sa.prod := by rw [← hla]; exact h1
+  have := h (unravelC sa k) (unravelC_inBounds sa k hk)
+  simp only [NDArr.get, ravelC_unravelC sa k hk] at this
+  rw [List.getD_eq_getElem?_getD, List.getD_eq_getElem?_getD, List.getElem?_eq_getElem h1,
+    List.getElem?_eq_getElem h2] at this
+  simpa using this
+
+/-- every in-bounds multi-index is the coordinate vector of exactly the point obtained by ravelling it
+    along the rate order: the grid enumerates the full Cartesian product -/
+theorem coords_surj (sizes rate : List Nat) (h : ValidGrid sizes rate) (idx : List Nat) (hb : InBounds sizes idx) :
+    ∃ r, r < npoints (sizeFn sizes) rate ∧ coords sizes rate r (List.range sizes.length) = idx := by
+  obtain ⟨hnd, hpos, hall⟩ := valid_facts sizes rate h
+  have hbsel := Usid.Translate.inBounds_map sizes idx hb rate.reverse
+    (fun i hi => (hpos i (List.mem_reverse.mp hi)).1)
+  refine ⟨ravelC (rate.reverse.map (fun d => sizes.getD d 1)) (rate.reverse.map (fun d => idx.getD d 0)), ?_, ?_⟩
+  · have := ravelC_lt _ _ hbsel
+    have e : (rate.reverse.map (fun d => sizes.getD d 1)).prod = npoints (sizeFn sizes) rate := by
+      unfold npoints; rw [List.map_reverse, (List.reverse_perm _).prod_nat]; rfl
+    rw [e] at this; exact this
+  · have hlen := Usid.Translate.inBounds_length sizes idx hb
+    apply List.ext_getElem
+    · simp [coords, hlen]
+    · intro d h1 h2
+      have hdk : d < sizes.length := by rw [hlen]; exact h2
+      simp only [coords, List.getElem_map, List.getElem_range, gridIdx]
+      obtain ⟨pre, post, e, hpre⟩ := split_of_mem rate d (hall d hdk)
+      have hrev : rate.reverse = post.reverse ++ d :: pre.reverse := by rw [e]; simp
+      have hj : post.reverse.length < (rate.reverse.map (fun d => sizes.getD d 1)).length := by
+        rw [hrev]; simp
+      have hdig := Usid.Translate.ravelC_digit _ _ post.reverse.length hbsel hj
+      have hdrop : ((rate.reverse.map (fun d => sizes.getD d 1)).drop (post.reverse.length + 1)).prod =
+          strideBefore (sizeFn sizes) rate d := by
+        have hs : strideBefore (sizeFn sizes) rate d = (pre.map (sizeFn sizes)).prod := by
+          rw [e]; exact stride_split _ pre post d hpre
+        have hd : ∀ (A B : List Nat) (x : Nat), (A ++ x :: B).drop (A.length + 1) = B := by
+          intro A B x; simp
+        rw [hs, hrev, List.map_append, List.map_cons]
+        have := hd (post.reverse.map (fun d => sizes.getD d 1)) (pre.reverse.map (fun d => sizes.getD d 1)) (sizes.getD d 1)
+        rw [List.length_map] at this
+        rw [this, List.map_reverse]
+        exact (List.reverse_perm _).prod_nat
+      have hget1 : (rate.reverse.map (fun d => sizes.getD d 1)).getD post.reverse.length 1 = sizeFn sizes d := by
+        rw [hrev]; simp [sizeFn, List.getD_eq_getElem?_getD]
+      have hget2 : (rate.reverse.map (fun d => idx.getD d 0)).getD post.reverse.length 0 = idx[d] := by
+        rw [hrev]
+        simp [List.getD_eq_getElem?_getD, List.getElem?_eq_getElem h2]
+      rw [hdrop, hget1, hget2] at hdig
+      exact hdig
 
 end Usid.Reshape
